@@ -68,6 +68,7 @@ def modOps (s : ModSt) (ln : Nat) (t : List String) : Option (ModSt × List Stri
   | ["m.opt", "rng", seed] => some ({ s with rng := UInt64.ofNat (nOfTok seed) }, [])
   | "m.opt" :: _ => some (s, [])
   | "m.loadhex" :: _ => some ({ s with clockKnown := false }, [])
+  | "M.noclock" :: _ => some ({ s with clockKnown := false }, [])
   | "m.load" :: prefix_ :: _ =>
     match s.saved.lookup prefix_ with
     | some sv =>
